@@ -58,6 +58,10 @@ EXPLANATION += ' R8 (and C03-R11): the reading side of the Molden tags is `_load
 # --- metadata added after the round-4 refactoring twins
 EXPLANATION += ' R8: the table of kinds the tag statements read may come from a helper. R17: the FCHK reader block may be a helper that is handed the field dictionary. C03-R9 (Molden [MO]): the whole section reader on a model stream of three orbitals.'
 # --- end metadata round-4 twins
+# --- metadata added for batch 9
+TECHNIQUE += '; def-use provenance of the WFX sections'
+EXPLANATION += ' Added: (R20) every per-atom WFX section is written from the attribute under which the reader files it (atomic numbers from atnums, nuclear charges from atcorenums), values followed through locals; the gradient keeps its sign.'
+# --- end metadata batch 9
 
 
 def module_closure(prog, root):
